@@ -203,6 +203,43 @@ def hasPartialAny : List Pat → Ty → Bool
 end
 
 mutual
+/-- All struct patterns with the field types of their struct, wherever they occur in `p : t`. -/
+def strctSites : Pat → Ty → List (List Nat × List Ty)
+  | .enum _ k p, .enum ts => (match ts[k]? with
+      | some t => strctSites p t
+      | none => [])
+  | .tuple ps, .tuple ts => strctSitesL ps ts
+  | .strct idx ps, .strct ts => (idx, ts) :: strctSitesF idx ps ts
+  | .or ps, t => strctSitesAny ps t
+  | _, _ => []
+def strctSitesL : List Pat → List Ty → List (List Nat × List Ty)
+  | p :: ps, t :: ts => strctSites p t ++ strctSitesL ps ts
+  | _, _ => []
+def strctSitesF : List Nat → List Pat → List Ty → List (List Nat × List Ty)
+  | i :: is, p :: ps, ts => (match ts[i]? with
+      | some t => strctSites p t
+      | none => []) ++ strctSitesF is ps ts
+  | _, _, _ => []
+def strctSitesAny : List Pat → Ty → List (List Nat × List Ty)
+  | [], _ => []
+  | p :: ps, t => strctSites p t ++ strctSitesAny ps t
+end
+
+def isEnumTy : Option Ty → Bool
+  | some (.enum _) => true
+  | _ => false
+
+/-- Two struct patterns with the same number of listed fields put DIFFERENT enum-typed fields in one positional
+column: the compiler then compares enum names, which this model does not carry (see C14-ice-enum-names). -/
+def enumMix (ty : Ty) (arms : List Pat) : Bool :=
+  let sites := strctSitesAny arms ty
+  sites.any fun (i1, ts) => sites.any fun (i2, _) =>
+    i1.length == i2.length &&
+    (List.range i1.length).any fun j =>
+      i1[j]? != i2[j]? &&
+      isEnumTy ((i1[j]?).bind (ts[·]?)) && isEnumTy ((i2[j]?).bind (ts[·]?))
+
+mutual
 def hasTypedU8 : Pat → Bool
   | .u8 _ _ => true
   | .enum _ _ p => hasTypedU8 p
@@ -360,7 +397,7 @@ def answer (line : String) : String :=
             | some l => (allValues ty).all fun v => !l.matches v || covered (arms.take k ++ alts.dropLast) v
             | none => false)
         | _ => false
-      s!"{mHead} unreachable={showIdxs mUnr} agree={b01 agree} prop={b01 prop} why={joinPlus why} pe={b01 parts.exh} pw={b01 parts.wit} pu={b01 parts.unr} pr={b01 parts.run} bf={b01 (exhaustiveBF ty arms)} fragment={b01 frag} witness={witnessKey} arms={arms.length} ran={b01 (!runs.isEmpty)} orarm={b01 hasOr} orlastdead={b01 orLastDead}"
+      s!"{mHead} unreachable={showIdxs mUnr} agree={b01 agree} prop={b01 prop} why={joinPlus why} pe={b01 parts.exh} pw={b01 parts.wit} pu={b01 parts.unr} pr={b01 parts.run} bf={b01 (exhaustiveBF ty arms)} fragment={b01 frag} witness={witnessKey} arms={arms.length} ran={b01 (!runs.isEmpty)} orarm={b01 hasOr} orlastdead={b01 orLastDead} enummix={b01 (enumMix ty arms)}"
     | _, _, _, _ => "bad-case agree=0 prop=0 why=unclassified-parse"
   | _, _ => "bad-line agree=0 prop=0 why=unclassified-parse"
 
